@@ -1990,7 +1990,8 @@ func (schema *Schema) visitJSONObject(settings *schemaValidationSettings, value 
 			repWO := settings.asrep && propSchema.Value.WriteOnly && !settings.writeOnlyValidationDisabled
 
 			_, present := value[propName] // present with the value null is not absent
-			if f := settings.defaultsSet; f != nil && !present {
+			// (a nil map, which a decoder may hand over for an object without members, cannot take a default)
+			if f := settings.defaultsSet; f != nil && !present && value != nil {
 				// A recursive schema may carry a default for itself: its default is not
 				// injected again inside a value that is itself that default.
 				if dflt := propSchema.Value.Default; dflt != nil && !reqRO && !repWO && settings.defaultsInProgress[propSchema.Value] == 0 {
